@@ -11,7 +11,9 @@
 (* placeholder left):                                                      *)
 (*   [h |-> "leaf", v |-> n]            a constant                         *)
 (*   [h |-> "fleaf", v |-> tenths]      a float produced by a Float        *)
-(*   [h |-> "dict" | "list" | "obj", items |-> Seq(template)]              *)
+(*   [h |-> "dict" | "list", items |-> Seq(template)]                      *)
+(*   [h |-> "obj", c |-> 0 | 1, items]  object of class A<n> / its subclass*)
+(*   [h |-> "ref", path]         a derived value (reference to another item)*)
 (*   [h |-> "oneof", cands |-> Seq(template)]                              *)
 (*   [h |-> "manyof", k, cands, distinct, sorted]                          *)
 (*   [h |-> "float", lo, hi]     [h |-> "custom"]                          *)
@@ -28,7 +30,10 @@ Leaf(n) == [h |-> "leaf", v |-> n]
 FLeaf(x) == [h |-> "fleaf", v |-> x]
 DictT(items) == [h |-> "dict", items |-> items]
 ListT(items) == [h |-> "list", items |-> items]
-ObjT(items) == [h |-> "obj", items |-> items]
+ObjT(items) == [h |-> "obj", c |-> 0, items |-> items]     \* an object of class A<n>
+SubT(items) == [h |-> "obj", c |-> 1, items |-> items]     \* an object of a SUBCLASS of A<n> (same fields)
+Ref(path) == [h |-> "ref", path |-> path]                  \* derived value: ValueReference to the item at `path`
+                                                           \* (1-based positions from the root of the value)
 OneOf(cands) == [h |-> "oneof", cands |-> cands]
 ManyOf(k, cands, d, s) == [h |-> "manyof", k |-> k, cands |-> cands, distinct |-> d, sorted |-> s]
 FloatT(lo, hi) == [h |-> "float", lo |-> lo, hi |-> hi]
@@ -86,7 +91,17 @@ Dec(t, w, ds, i) ==
   ELSE IF IsChoice(t) THEN LET r == DecSeq(t.cands, w, ds, i) IN [v |-> [t EXCEPT !.cands = r.vs], i |-> r.i]
   ELSE IF IsBox(t) THEN LET r == DecSeq(t.items, w, ds, i) IN [v |-> [t EXCEPT !.items = r.vs], i |-> r.i]
   ELSE [v |-> t, i |-> i]
-Decode(t, w, d) == Dec(t, w, d, 1).v
+\* derived values are resolved on the decoded value, at the root template only
+RECURSIVE HasPath(_,_)
+HasPath(v, path) == path = <<>> \/ (IsBox(v) /\ path[1] \in 1..Len(v.items) /\ HasPath(v.items[path[1]], Tail(path)))
+RECURSIVE ValueAt(_,_)
+ValueAt(v, path) == IF path = <<>> THEN v ELSE ValueAt(v.items[path[1]], Tail(path))
+RECURSIVE Resolve(_,_)
+Resolve(v, root) ==
+  IF v.h = "ref" THEN (IF HasPath(root, v.path) THEN ValueAt(root, v.path) ELSE v)
+  ELSE IF IsBox(v) THEN [v EXCEPT !.items = [i \in 1..Len(v.items) |-> Resolve(v.items[i], root)]]
+  ELSE v
+Decode(t, w, d) == LET v == Dec(t, w, d, 1).v IN Resolve(v, v)
 
 \* ---------------------------------------------------------------- encode (structural merge; first matching candidate)
 NoEnc == [ok |-> FALSE, ds |-> <<>>]
@@ -120,9 +135,21 @@ Enc(t, w, v) ==
        ELSE IF t.h = "manyof" /\ <<v.k, v.distinct, v.sorted>> # <<t.k, t.distinct, t.sorted>> THEN NoEnc
        ELSE EncSeq(t.cands, w, v.cands)
   ELSE IF IsBox(t)
-  THEN IF v.h # t.h THEN NoEnc ELSE IF Len(v.items) # Len(t.items) THEN NoEnc ELSE EncSeq(t.items, w, v.items)
+  THEN IF v.h # t.h THEN NoEnc
+       ELSE IF Len(v.items) # Len(t.items) THEN NoEnc
+       ELSE IF t.h = "obj" /\ v.c # t.c THEN NoEnc              \* exactly the same class, not a subclass
+       ELSE IF t.h = "tobj" /\ v.fs # t.fs THEN NoEnc
+       ELSE EncSeq(t.items, w, v.items)
+  ELSE IF t.h = "ref" THEN [ok |-> TRUE, ds |-> <<>>]           \* judged at the root: RefsConsistent
   ELSE IF t = v THEN [ok |-> TRUE, ds |-> <<>>] ELSE NoEnc
-Encode(t, w, v) == Enc(t, w, v)
+\* positions of the derived values of a template (reachable through containers) with their targets
+RECURSIVE RefPos(_,_)
+RefPos(t, at) == IF t.h = "ref" THEN {<<at, t.path>>}
+                 ELSE IF IsBox(t) THEN UNION { RefPos(t.items[i], Append(at, i)) : i \in 1..Len(t.items) }
+                 ELSE {}
+RefsConsistent(t, v) == \A r \in RefPos(t, <<>>) :
+                          HasPath(v, r[1]) /\ HasPath(v, r[2]) /\ ValueAt(v, r[1]) = ValueAt(v, r[2])
+Encode(t, w, v) == LET e == Enc(t, w, v) IN IF e.ok /\ RefsConsistent(t, v) THEN e ELSE NoEnc
 
 \* ---------------------------------------------------------------- predicates of the property
 RECURSIVE Placeholders(_)
@@ -209,6 +236,21 @@ Boxes2(P, Q) == { DictT(<<p, q>>) : p \in P, q \in Q } \cup { ObjT(<<p, q>>) : p
                 \cup { ListT(<<DictT(<<p>>), q>>) : p \in P, q \in Q }
 Boxes3(P) == { DictT(<<p, ListT(<<q, L1>>), ObjT(<<r>>)>>) : p \in P, q \in P, r \in P }
 
+\* objects of a base class and of its subclass with equal contents as candidates (distinguishable: different classes)
+ClassCands == { OneOf(<<ObjT(<<L1>>), SubT(<<L1>>)>>), OneOf(<<SubT(<<L1>>), ObjT(<<L1>>)>>),
+                OneOf(<<ObjT(<<L1>>), SubT(<<L1>>), ObjT(<<L2>>)>>),
+                ManyOf(2, <<ObjT(<<O12>>), SubT(<<O12>>), L3>>, TRUE, FALSE),
+                ManyOf(2, <<SubT(<<L1, L2>>), ObjT(<<L1, L2>>)>>, FALSE, FALSE),
+                DictT(<<OneOf(<<ObjT(<<L1>>), SubT(<<L1>>)>>), SubT(<<O12>>)>>) }
+\* derived values (references to a sibling / to an item of the parent) and placeholder-free templates
+RefFills == {O12, L1, ManyOf(2, <<L1, L2, L3>>, TRUE, FALSE), OneOf(<<DictT(<<L1>>), L2>>), ListT(<<L1, L2>>), FloatT(0, 10)}
+WithRefs == { DictT(<<p, Ref(<<1>>)>>) : p \in RefFills }
+            \cup { DictT(<<p, ListT(<<Ref(<<1>>), L3>>)>>) : p \in RefFills }
+            \cup { ObjT(<<p, Ref(<<1>>)>>) : p \in {O12, L1} }
+            \cup { DictT(<<DictT(<<L1, ListT(<<L1, L2>>)>>), ListT(<<Ref(<<1, 2>>), L3>>)>>),
+                   DictT(<<DictT(<<O12, L2>>), ObjT(<<Ref(<<1, 1>>), Ref(<<1>>)>>)>>) }
+Constants == { L1, DictT(<<L1, L2>>), ListT(<<L1, DictT(<<L2>>)>>), ObjT(<<L1>>), SubT(<<L1, L2>>) }
+
 \* typed objects: fields Float[0, 1], Float[0.5, ...), Float(..., 0], Int[1, 2], Int[0, ...), Enum{1, 3}, List(Int >= 1)
 F_01 == FS("float", 0, 10)
 F_min5 == FS("float", 5, NONE)
@@ -239,17 +281,18 @@ WheresFor(t) == {"all"} \cup (IF \E p \in Placeholders(t) : p.h # "oneof" THEN {
 CONSTANTS HyperUniverse        \* set of <<template, where>>
 WithWheres(T) == { <<t, w>> : t \in T, w \in {"all", "oneof", "choices", "many3"} }
 OkPair(p) == /\ p[2] \in WheresFor(p[1])
-             /\ PrimSpecs(p[1], p[2]) # <<>>                    \* pg.iter refuses constant templates
              /\ WellFormed(TemplateSpec(p[1], p[2]))
              /\ LET z == Size(TemplateSpec(p[1], p[2])) IN
                 IF z = INF THEN Cardinality(Valid(TemplateSpec(p[1], p[2]))) <= 4 * MaxSize ELSE z <= MaxSize
 H_one == { <<O12, "all">> }
-H_tiny == { p \in WithWheres(Prim1 \cup Boxes1({O12, FloatT(0, 10)}) \cup TypedGood) : OkPair(p) }
+H_tiny == { p \in WithWheres(Prim1 \cup Boxes1({O12, FloatT(0, 10)}) \cup TypedGood \cup ClassCands \cup WithRefs \cup Constants)
+            : OkPair(p) }
 H_quick == { p \in WithWheres(Prim1 \cup Prim2 \cup {O11} \cup Boxes1(Prim1 \cup Prim2 \cup {O11}) \cup Boxes2(PrimSmall, PrimSmall)
-                            \cup TypedGood)
+                            \cup TypedGood \cup ClassCands \cup WithRefs \cup Constants)
              : OkPair(p) }
 H_thorough == { p \in WithWheres(Prim1 \cup Prim2 \cup {O11} \cup Boxes1(Prim1 \cup Prim2 \cup {O11})
-                                 \cup Boxes2(Prim1 \cup Prim2, PrimSmall) \cup Boxes3(PrimSmall \ {O11}) \cup TypedGood)
+                                 \cup Boxes2(Prim1 \cup Prim2, PrimSmall) \cup Boxes3(PrimSmall \ {O11}) \cup TypedGood
+                                 \cup ClassCands \cup WithRefs \cup Constants)
                 : OkPair(p) }
 
 \* ---------------------------------------------------------------- behaviours: the odometer over the template's space
@@ -268,7 +311,10 @@ HSpec == HInit /\ [][HNext]_hvars
 Val == Decode(tmpl, wh, cur)
 Re == Encode(tmpl, wh, Val)
 
-NoPlaceholderLeft == OnlyFilteredLeft(wh, Val) /\ (wh = "all" => Deterministic(Val))
+RECURSIVE HasRef(_)
+HasRef(v) == v.h = "ref" \/ (IsBox(v) /\ \E i \in 1..Len(v.items) : HasRef(v.items[i]))
+                         \/ (IsChoice(v) /\ \E i \in 1..Len(v.cands) : HasRef(v.cands[i]))
+NoPlaceholderLeft == OnlyFilteredLeft(wh, Val) /\ (wh = "all" => Deterministic(Val)) /\ ~HasRef(Val)
 \* every decoded value is accepted by the value specs its placeholders were bound to
 TypedOK == TypedFieldsOK(Val)
 ShapeOK == Re.ok                                         \* the decoded value merges structurally with the template
